@@ -50,4 +50,51 @@ theorem simplify_tolerances (e curve_tol : ℝ) :
     GenRs.simplify2_reduction_tol e curve_tol = e ∧ GenRs.simplify2_vertex_tol e curve_tol = curve_tol :=
   ⟨rfl, rfl, rfl, rfl⟩
 
+/-! ### Ramer–Douglas–Peucker: the distance of a vertex from the chord (regenerated parameter and distance) -/
+
+theorem smin_eq_min (a b : ℝ) : smin a b = min a b := by unfold smin; exact (min_def a b).symm
+theorem smax_eq_max (a b : ℝ) : smax a b = max a b := by unfold smax; exact (max_def a b).symm
+
+theorem rdp_t_eq (ap ab : V2 ℝ) (L : ℝ) (hL : 0 < L) :
+    GenRs.rdp_segment_t ap ab L = min (max (V2.dot ap ab / L) 0) 1 := by
+  unfold GenRs.rdp_segment_t
+  rw [if_pos hL, smin_eq_min, smax_eq_max]
+
+theorem rdp_t_in_unit_interval (ap ab : V2 ℝ) (L : ℝ) :
+    0 ≤ GenRs.rdp_segment_t ap ab L ∧ GenRs.rdp_segment_t ap ab L ≤ 1 := by
+  by_cases hL : 0 < L
+  · rw [rdp_t_eq ap ab L hL]
+    exact ⟨le_min (le_max_right _ _) (by norm_num), min_le_right _ _⟩
+  · unfold GenRs.rdp_segment_t
+    rw [if_neg hL]; norm_num
+
+/-- **The distance that decides whether a vertex may be discarded is its distance from the chord SEGMENT** — the minimum
+    over the points `a + s·ab`, `0 ≤ s ≤ 1`, not the distance from the infinite line through the chord: a vertex beyond
+    an end of the chord is measured from that end. -/
+theorem rdp_distance_is_the_minimum_over_the_segment (ap ab : V2 ℝ) (hL : 0 < V2.normSq ab) (s : ℝ) (h0 : 0 ≤ s)
+    (h1 : s ≤ 1) :
+    GenRs.rdp_segment_dist ap ab (GenRs.rdp_segment_t ap ab (V2.normSq ab)) ≤ V2.norm (V2.sub ap (V2.smul s ab)) := by
+  show Real.sqrt (V2.normSq _) ≤ Real.sqrt (V2.normSq _)
+  apply Real.sqrt_le_sqrt
+  set L := V2.normSq ab with hLdef
+  set d := V2.dot ap ab with hd
+  have expand : ∀ u : ℝ, V2.normSq (V2.sub ap (V2.smul u ab)) = V2.normSq ap - 2 * u * d + u * u * L := by
+    intro u
+    simp only [V2.normSq, V2.dot, V2.sub, V2.smul, hLdef, hd]; ring
+  rw [expand, expand]
+  have ht : GenRs.rdp_segment_t ap ab L = min (max (d / L) 0) 1 := rdp_t_eq ap ab L hL
+  rw [ht]
+  have hdL : d = (d / L) * L := by field_simp
+  set q := d / L with hq
+  rcases le_total q 0 with hq0 | hq0
+  · rw [max_eq_right hq0, min_eq_left (by norm_num : (0 : ℝ) ≤ 1)]
+    nlinarith [mul_nonneg h0 (mul_nonneg h0 hL.le), mul_nonneg h0 (mul_nonneg (neg_nonneg.mpr hq0) hL.le)]
+  · rw [max_eq_left hq0]
+    rcases le_total q 1 with hq1 | hq1
+    · rw [min_eq_left hq1]
+      nlinarith [mul_nonneg (mul_self_nonneg (s - q)) hL.le]
+    · rw [min_eq_right hq1]
+      nlinarith [mul_nonneg (mul_nonneg (sub_nonneg.mpr h1) (sub_nonneg.mpr h1)) hL.le,
+        mul_nonneg (mul_nonneg (sub_nonneg.mpr h1) (sub_nonneg.mpr hq1)) hL.le]
+
 end C05U
